@@ -69,6 +69,7 @@ struct Exec {
     json ops;
     size_t pc = 0;
     json cur_wmask = json::array(), cur_sp = json::array();   // calendar contents as last set
+    long fires = 0;
     int64_t cur_tg = -1;       // target observed after the last call while enabled
     int64_t last_fired = -1;   // instant the callback ran for last (forgotten when a backward step puts it into the future)
 };
@@ -140,6 +141,8 @@ static void do_op(Exec &x, const json &op) {
             // the alarm re-arms before this callback: cur_tg still holds the instant this call stands for
             x.last_fired = x.cur_tg;
             vh::T().printf("{\"e\":\"Fire\",%s}", post(x).c_str());
+            // a timer that is re-armed as already due fires again within the same loop pass, without end
+            if (++x.fires > 5000) vh::fault("runaway", "more than 5000 callbacks in one execution");
         });
         bool r = false;
         std::string c;
